@@ -653,8 +653,65 @@ fn integers(report: &Report) {
         narrow("u64", from_value::<u64>(&val).map(|x| x as i128).map_err(|e| e.to_string()), v, v >= 0);
         narrow("i64", from_value::<i64>(&val).map(|x| x as i128).map_err(|e| e.to_string()), v, true);
     }
+    // the way back for integers that were carried as floats: a float value read into an integer
+    // type is refused or is *exactly* that integer (as mathematics, not as a saturating cast)
+    let mut from_float = |label: &str, got: Result<i128, String>, f: f64| {
+        n += 1;
+        report.eval();
+        let ok = match got {
+            Err(_) => true,
+            Ok(x) => f.is_finite() && f.fract() == 0.0 && f.abs() < 1.0e38 && (f as i128) == x,
+        };
+        if !ok {
+            report.violation(&format!("C12|float-to-integer|{label}"), n, json!({"kind":"integer","path":format!("from_value::<{label}>(float)"),"value":format!("{f:e}")}), format!("from_value::<{label}>({f:e}) = {got:?}: neither refused nor the same number"));
+        }
+    };
+    let p63 = 9_223_372_036_854_775_808.0_f64;
+    for f in [0.0, -0.0, 1.0, 1.5, -1.0, -1.5, 127.0, 128.0, 255.0, 256.0, -128.0, -129.0, 65_535.0, 65_536.0, 2_147_483_647.0, 2_147_483_648.0, -2_147_483_649.0, 4_294_967_295.0, 4_294_967_296.0, 9_007_199_254_740_992.0, 9_007_199_254_740_994.0, p63 - 1024.0, p63, p63 + 2048.0, -p63, -p63 - 2048.0, 2.0 * p63, 2.0 * p63 - 2048.0, 1.0e19, 1.0e300, f64::INFINITY, f64::NEG_INFINITY, f64::NAN] {
+        let val = Value::scalar(f);
+        from_float("u8", from_value::<u8>(&val).map(|x| x as i128).map_err(|e| e.to_string()), f);
+        from_float("i8", from_value::<i8>(&val).map(|x| x as i128).map_err(|e| e.to_string()), f);
+        from_float("u16", from_value::<u16>(&val).map(|x| x as i128).map_err(|e| e.to_string()), f);
+        from_float("i16", from_value::<i16>(&val).map(|x| x as i128).map_err(|e| e.to_string()), f);
+        from_float("u32", from_value::<u32>(&val).map(|x| x as i128).map_err(|e| e.to_string()), f);
+        from_float("i32", from_value::<i32>(&val).map(|x| x as i128).map_err(|e| e.to_string()), f);
+        from_float("u64", from_value::<u64>(&val).map(|x| x as i128).map_err(|e| e.to_string()), f);
+        from_float("i64", from_value::<i64>(&val).map(|x| x as i128).map_err(|e| e.to_string()), f);
+        from_float("usize", from_value::<usize>(&val).map(|x| x as i128).map_err(|e| e.to_string()), f);
+        from_float("isize", from_value::<isize>(&val).map(|x| x as i128).map_err(|e| e.to_string()), f);
+        from_float("Option<u64>", from_value::<Option<u64>>(&val).map(|x| x.map(|x| x as i128).unwrap_or(-1)).map_err(|e| e.to_string()), f);
+        from_float("Vec<i64>[0]", from_value::<Vec<i64>>(&Value::Array(vec![val.clone()])).map(|x| x[0] as i128).map_err(|e| e.to_string()), f);
+        #[derive(serde::Deserialize)]
+        struct Wrap {
+            n: u64,
+            m: i64,
+        }
+        let mut o = liquid_core::Object::new();
+        o.insert("n".into(), val.clone());
+        o.insert("m".into(), val.clone());
+        let r = from_value::<Wrap>(&Value::Object(o));
+        from_float("struct{n:u64}", r.as_ref().map(|w| w.n as i128).map_err(|e| e.to_string()), f);
+        from_float("struct{m:i64}", r.as_ref().map(|w| w.m as i128).map_err(|e| e.to_string()), f);
+    }
+    // out and back: Rust integer -> Liquid value -> Rust integer is the identity or refused at either step
+    for b in big.iter().copied().chain([0u64, 1, 255, 1 << 53, (1 << 53) + 1]) {
+        n += 1;
+        report.eval();
+        let back = to_value(&b).map_err(|e| e.to_string()).and_then(|v| from_value::<u64>(&v).map_err(|e| e.to_string()));
+        if let Ok(x) = back {
+            if x != b {
+                report.violation("C12|integer-round-trip|u64", n, json!({"kind":"integer","path":"to_value(&u64) -> from_value::<u64>","value":b.to_string()}), format!("{b} came back as {x}"));
+            }
+        }
+        let via_json = serde_json::from_str::<Value>(&b.to_string()).map_err(|e| e.to_string()).and_then(|v| from_value::<u64>(&v).map_err(|e| e.to_string()));
+        if let Ok(x) = via_json {
+            if x != b {
+                report.violation("C12|integer-round-trip|json-u64", n, json!({"kind":"integer","path":"serde_json -> Value -> from_value::<u64>","value":b.to_string()}), format!("{b} came back as {x}"));
+            }
+        }
+    }
     report.nontrivial.fetch_add(n, Ordering::Relaxed);
-    report.family(FamilyStat { name: "integers across the u64/i64 boundaries".into(), cases: n, nontrivial: n, skipped: 0, note: "in: Err or the nearest double, never another integer; out: narrowing is exact or an error".into() });
+    report.family(FamilyStat { name: "integers across the u64/i64 boundaries".into(), cases: n, nontrivial: n, skipped: 0, note: "in: Err or the nearest double, never another integer; out: narrowing is exact or an error; floats read into integer types (10 types, Option, Vec, struct fields) are refused or exactly equal; u64 out-and-back is the identity or refused".into() });
 }
 
 pub fn run(tier: Tier) -> i32 {
